@@ -8,13 +8,18 @@
 (*    digest, into emit.ndjson; `sec17 finish` evaluates them with the         *)
 (*    standard library;                                                        *)
 (*  - kl.* events drive the KeyLife17 state machine (blocking), except that a  *)
-(*    verification with the wrong outcome is marked bad and the model moves on.*)
+(*    verification with the wrong outcome is marked bad and the model moves on;*)
+(*    a kl.relay event carries the text before and after: the step is enabled  *)
+(*    only if both have the same key fields (KFSameKey) -- the recorder's       *)
+(*    re-layout is checked, not trusted; a kl.import carries the text read and  *)
+(*    the second export of the key read from it: same key fields, or bad;      *)
+(*  - an event whose call PANICKED is bad whatever its arguments (totality).    *)
 (* A wrong pure event is marked bad, with its finding key in register 3.       *)
 EXTENDS Dnssec17, TraceBase, CSV
 
 VARIABLES l, hs, ts, ss, hist
 
-KL == INSTANCE KeyLife17 WITH Keys <- 1..64, MaxOps <- 0
+KL == INSTANCE KeyLife17 WITH Keys <- 1..64, MaxOps <- 0, Layouts <- {"observed"}
 
 Ev == Trace[l]
 EmitX(rec) == CSVWrite("%1$s", <<ToJson(rec)>>, "emit.ndjson")
@@ -81,31 +86,63 @@ RrsigKey(e) ==
                    signed |-> RRSIGInput(f, po.labels, e.class, e.rdatas), sig |-> e.sig, pub |-> e.pub])
          THEN "" ELSE "trace/emit"
 
-PureKey(e) == CASE e.ev = "keytag"   -> KeytagKey(e)
+\* totality: a call that panicked returned no value
+Panicked(e) == Has(e, "panic") /\ e.panic # ""
+PanicKeyOf(e) == CASE e.ev = "keytag"   -> "keytag/panics"
+                   [] e.ev = "ds"       -> DSPanicKey(e.dt)
+                   [] e.ev = "hashname" -> "nsec3/hashname-panics"
+                   [] e.ev = "cover"    -> "nsec3/cover-or-match-panics"
+                   [] e.ev = "validity" -> "validity/panics"
+                   [] OTHER -> "trace/unknown-event"
+JudgeKey(e) == CASE e.ev = "keytag"   -> KeytagKey(e)
                 [] e.ev = "rrsig"    -> RrsigKey(e)
                 [] e.ev = "ds"       -> DSKey(e)
                 [] e.ev = "hashname" -> HashKey(e)
                 [] e.ev = "cover"    -> CoverKey(e)
                 [] e.ev = "validity" -> ValidityKey(e)
                 [] OTHER -> "trace/unknown-event"
+PureKey(e) == IF Panicked(e) THEN PanicKeyOf(e) ELSE JudgeKey(e)
 
-IsKL(e) == e.ev \in {"kl.reset", "kl.gen", "kl.provide", "kl.export", "kl.import", "kl.sign", "kl.verify"}
+IsKL(e) == e.ev \in {"kl.reset", "kl.gen", "kl.provide", "kl.export", "kl.relay", "kl.import", "kl.sign", "kl.verify"}
 klvars == <<hs, ts, ss, hist>>
 Bad(key) == MarkBad(l) /\ TLCSet(3, Append(TLCGet(3), key))
+
+\* operations on a relayed copy, or with a key read from one, are finding classes of their own
+RelaidT(j) == j \in 1..Len(ts) /\ ts[j].copy # 0
+RelaidH(i) == i \in 1..Len(hs) /\ hs[i].origin = "imp" /\ RelaidT(hs[i].text)
+Pfx(b) == IF b THEN "keylife/relaid-" ELSE "keylife/"
+How(e) == IF Has(e, "errclass") /\ e.errclass = "panics" THEN "panics" ELSE "fails"
+\* a successful import: the key read, exported again, has the key fields of the text read
+ReexportKey(e) ==
+  IF e.reexppanic # "" THEN Pfx(RelaidT(e.t)) \o "reexport-panics:" \o e.alg
+  ELSE IF ~Has(e, "text") THEN ""                                   \* not recorded (the largest keys)
+  ELSE IF ~Has(e, "reexp") THEN "keylife/export-empty:" \o e.alg
+  ELSE IF ~KFWellFormed(e.text) THEN "trace/import-text-malformed"
+  ELSE IF KFSameKey(e.text, e.reexp) THEN "" ELSE Pfx(RelaidT(e.t)) \o "reexport-differs:" \o e.alg
 
 KLStep(e) ==
   \/ e.ev = "kl.reset"  /\ hs' = <<>> /\ ts' = <<>> /\ ss' = <<>> /\ hist' = <<>>
   \/ e.ev = "kl.gen"    /\ ~e.failed /\ KL!Generate(e.key)
   \/ e.ev = "kl.gen"    /\ e.failed  /\ Bad("keylife/generate-" \o e.errclass \o ":" \o e.alg) /\ UNCHANGED klvars     \* a supported size always yields a key
   \/ e.ev = "kl.provide" /\ KL!Provide(e.key)
-  \/ e.ev = "kl.export" /\ KL!Export(e.h)
+  \/ e.ev = "kl.export" /\ ~e.failed /\ KL!Export(e.h)
+  \/ e.ev = "kl.export" /\ e.failed  /\ e.h \in 1..Len(hs)
+                        /\ Bad(IF How(e) = "panics" THEN "keylife/export-panics:" \o e.alg ELSE "keylife/export-empty:" \o e.alg) /\ UNCHANGED klvars
+  \/ e.ev = "kl.relay"  /\ KFSameKey(e.old, e.new) /\ KL!Relay(e.t, "observed")
+  \/ e.ev = "kl.relay"  /\ ~KFSameKey(e.old, e.new) /\ Bad("trace/relay-changed-the-key-fields") /\ UNCHANGED klvars    \* a recorder bug: infrastructure
   \/ e.ev = "kl.import" /\ ~e.failed /\ KL!Import(e.t, e.api)
-  \/ e.ev = "kl.import" /\ e.failed  /\ e.t \in 1..Len(ts) /\ Bad("keylife/import-fails:" \o e.alg) /\ UNCHANGED klvars   \* importing an exported text always succeeds
+                        /\ LET k == ReexportKey(e) IN IF k = "" THEN TRUE ELSE Bad(k)
+  \/ e.ev = "kl.import" /\ e.failed  /\ e.t \in 1..Len(ts)
+                        /\ Bad(Pfx(RelaidT(e.t)) \o "import-" \o How(e) \o ":" \o e.alg) /\ UNCHANGED klvars   \* importing a text for this DNSKEY always succeeds
   \/ e.ev = "kl.sign"   /\ ~e.failed /\ KL!Sign(e.h)
-  \/ e.ev = "kl.sign"   /\ e.failed  /\ e.h \in 1..Len(hs) /\ Bad(IF e.errclass = "keytag0" THEN "keylife/sign-refuses-keytag-0" ELSE "keylife/sign-fails:" \o e.alg) /\ UNCHANGED klvars
-  \/ e.ev = "kl.verify" /\ KL!Verify(e.key, e.s)
+  \/ e.ev = "kl.sign"   /\ e.failed  /\ e.h \in 1..Len(hs)
+                        /\ Bad(IF e.errclass = "keytag0" THEN "keylife/sign-refuses-keytag-0" ELSE Pfx(RelaidH(e.h)) \o "sign-" \o How(e) \o ":" \o e.alg)
+                        /\ UNCHANGED klvars
+  \/ e.ev = "kl.verify" /\ ~e.failed /\ KL!Verify(e.key, e.s)
                         /\ IF e.ok = KL!VerifyResult(e.key, e.s) THEN TRUE
-                           ELSE Bad(IF e.ok THEN "keylife/verify-accepts-other-key:" \o e.alg ELSE "keylife/verify-rejects-own-key:" \o e.alg)
+                           ELSE Bad(Pfx(RelaidH(ss[e.s].by)) \o (IF e.ok THEN "verify-accepts-other-key:" ELSE "verify-rejects-own-key:") \o e.alg)
+  \/ e.ev = "kl.verify" /\ e.failed  /\ e.s \in 1..Len(ss)
+                        /\ Bad(Pfx(RelaidH(ss[e.s].by)) \o "verify-panics:" \o e.alg) /\ UNCHANGED klvars
 
 Init == l = 1 /\ hs = <<>> /\ ts = <<>> /\ ss = <<>> /\ hist = <<>> /\ HWInit /\ TLCSet(3, <<>>)
 Next == /\ l <= Len(Trace)
